@@ -48,4 +48,115 @@ def Vector_tail_signature : List String := ["self", "n=None"]
 /-- the calls of dataiter/vector.py: Vector.tail in the order Python makes them along the source text -/
 def Vector_tail_call_order : List String := ["min", "np.arange", "self[np.arange(self.length - n, self.length)].copy"]
 
+/-- dataiter/vector.py: Vector.concat (sha256 of the function source: 30e1a5513e4e2a0f) -/
+def Vector_concat (truth : Term → Bool) : Out :=
+  let vectors' : Term := (Term.app "Add" [(Term.app "list" [(Term.sym "self")]), (Term.app "list()" [(Term.sym "others")])]);
+  let new' : Term := (Term.app "np.concatenate" [vectors']);
+  Out.ret [] (Term.app ".__class__" [(Term.sym "self"), new'])
+
+/-- the decorators of dataiter/vector.py: Vector.concat, outermost first -/
+def Vector_concat_decorators : List String := []
+
+/-- the signature of dataiter/vector.py: Vector.concat: parameters in order, with the source text of their defaults -/
+def Vector_concat_signature : List String := ["self", "*others"]
+
+/-- the calls of dataiter/vector.py: Vector.concat in the order Python makes them along the source text -/
+def Vector_concat_call_order : List String := ["list", "np.concatenate", "self.__class__"]
+
+/-- dataiter/vector.py: Vector.range (sha256 of the function source: 899223885c6f0435) -/
+def Vector_range (truth : Term → Bool) : Out :=
+  let rng' : Term := (Term.app "list" [(Term.app "np.nanmin" [(Term.sym "self")]), (Term.app "np.nanmax" [(Term.sym "self")])]);
+  Out.ret [] (Term.app ".__class__" [(Term.sym "self"), rng', (Term.app ".dtype" [(Term.sym "self")])])
+
+/-- the decorators of dataiter/vector.py: Vector.range, outermost first -/
+def Vector_range_decorators : List String := []
+
+/-- the signature of dataiter/vector.py: Vector.range: parameters in order, with the source text of their defaults -/
+def Vector_range_signature : List String := ["self"]
+
+/-- the calls of dataiter/vector.py: Vector.range in the order Python makes them along the source text -/
+def Vector_range_call_order : List String := ["np.nanmin", "np.nanmax", "self.__class__"]
+
+/-- dataiter/vector.py: Vector.sample (sha256 of the function source: 106b6fe4b7e044aa) -/
+def Vector_sample (truth : Term → Bool) (n_is_None : Bool) : Out :=
+  if n_is_None then
+    let n' : Term := (Term.sym "dataiter.DEFAULT_PEEK_ELEMENTS");
+    let n' : Term := (Term.app "min" [(Term.app ".length" [(Term.sym "self")]), n']);
+    let indices' : Term := (Term.app "np.random.choice" [(Term.app ".length" [(Term.sym "self")]), n', (Term.app "=replace" [(Term.sym "False")])]);
+    Out.ret [] (Term.app ".copy" [(Term.app "getitem" [(Term.sym "self"), (Term.app "np.sort" [indices'])])])
+  else
+    let n' : Term := (Term.app "min" [(Term.app ".length" [(Term.sym "self")]), (Term.sym "n")]);
+    let indices' : Term := (Term.app "np.random.choice" [(Term.app ".length" [(Term.sym "self")]), n', (Term.app "=replace" [(Term.sym "False")])]);
+    Out.ret [] (Term.app ".copy" [(Term.app "getitem" [(Term.sym "self"), (Term.app "np.sort" [indices'])])])
+
+/-- the decorators of dataiter/vector.py: Vector.sample, outermost first -/
+def Vector_sample_decorators : List String := []
+
+/-- the signature of dataiter/vector.py: Vector.sample: parameters in order, with the source text of their defaults -/
+def Vector_sample_signature : List String := ["self", "n=None"]
+
+/-- the calls of dataiter/vector.py: Vector.sample in the order Python makes them along the source text -/
+def Vector_sample_call_order : List String := ["min", "np.random.choice", "np.sort", "self[np.sort(indices)].copy"]
+
+/-- dataiter/vector.py: Vector.map (sha256 of the function source: 4e6c062a6b74e085) -/
+def Vector_map (truth : Term → Bool) : Out :=
+  let dtype' : Term := (Term.app "._map_input_dtype" [(Term.sym "self"), (Term.sym "dtype")]);
+  Out.ret [] (Term.app ".__class__" [(Term.sym "self"), (Term.app "GeneratorExp" [(Term.app "function" [(Term.sym "x"), (Term.app "*" [(Term.sym "args")]), (Term.app "=**" [(Term.sym "kwargs")])]), (Term.app "in" [(Term.sym "x"), (Term.sym "self"), (Term.app "if" [])])]), dtype'])
+
+/-- the decorators of dataiter/vector.py: Vector.map, outermost first -/
+def Vector_map_decorators : List String := []
+
+/-- the signature of dataiter/vector.py: Vector.map: parameters in order, with the source text of their defaults -/
+def Vector_map_signature : List String := ["self", "function", "*args", "dtype=None", "**kwargs"]
+
+/-- the calls of dataiter/vector.py: Vector.map in the order Python makes them along the source text -/
+def Vector_map_call_order : List String := ["self._map_input_dtype", "function", "self.__class__"]
+
+/-- dataiter/vector.py: Vector.replace_na (sha256 of the function source: 99122ad6e061dd12) -/
+def Vector_replace_na (truth : Term → Bool) : Out :=
+  let vector' : Term := (Term.app ".copy" [(Term.sym "self")]);
+  let eff0 : Term := (Term.app "store" [(Term.app "getitem" [vector', (Term.app ".is_na" [vector'])]), (Term.sym "value")]);
+  Out.ret [eff0] vector'
+
+/-- the decorators of dataiter/vector.py: Vector.replace_na, outermost first -/
+def Vector_replace_na_decorators : List String := []
+
+/-- the signature of dataiter/vector.py: Vector.replace_na: parameters in order, with the source text of their defaults -/
+def Vector_replace_na_signature : List String := ["self", "value"]
+
+/-- the calls of dataiter/vector.py: Vector.replace_na in the order Python makes them along the source text -/
+def Vector_replace_na_call_order : List String := ["self.copy", "vector.is_na"]
+
+/-- dataiter/vector.py: Vector.get_memory_use (sha256 of the function source: 74ebd75a00f4787d) -/
+def Vector_get_memory_use (truth : Term → Bool) : Out :=
+  if truth (Term.app ".is_object" [(Term.sym "self")]) then
+    Out.ret [] (Term.app "sum" [(Term.app "GeneratorExp" [(Term.app "sys.getsizeof" [(Term.sym "x")]), (Term.app "in" [(Term.sym "x"), (Term.sym "self"), (Term.app "if" [])])])])
+  else
+    Out.ret [] (Term.app ".nbytes" [(Term.sym "self")])
+
+/-- the decorators of dataiter/vector.py: Vector.get_memory_use, outermost first -/
+def Vector_get_memory_use_decorators : List String := []
+
+/-- the signature of dataiter/vector.py: Vector.get_memory_use: parameters in order, with the source text of their defaults -/
+def Vector_get_memory_use_signature : List String := ["self"]
+
+/-- the calls of dataiter/vector.py: Vector.get_memory_use in the order Python makes them along the source text -/
+def Vector_get_memory_use_call_order : List String := ["self.is_object", "sys.getsizeof", "sum"]
+
+/-- dataiter/vector.py: Vector.__array_wrap__ (sha256 of the function source: 96418409e5ee6507) -/
+def Vector_array_wrap (truth : Term → Bool) : Out :=
+  if ((!truth (Term.app ".shape" [(Term.sym "array")])) || truth (Term.sym "return_scalar")) then
+    Out.ret [] (Term.app ".type" [(Term.app ".dtype" [(Term.sym "array")]), (Term.sym "array")])
+  else
+    Out.ret [] (Term.app ".view" [(Term.sym "array"), (Term.app ".__class__" [(Term.sym "self")])])
+
+/-- the decorators of dataiter/vector.py: Vector.__array_wrap__, outermost first -/
+def Vector_array_wrap_decorators : List String := []
+
+/-- the signature of dataiter/vector.py: Vector.__array_wrap__: parameters in order, with the source text of their defaults -/
+def Vector_array_wrap_signature : List String := ["self", "array", "context=None", "return_scalar=False"]
+
+/-- the calls of dataiter/vector.py: Vector.__array_wrap__ in the order Python makes them along the source text -/
+def Vector_array_wrap_call_order : List String := ["array.dtype.type", "array.view"]
+
 end DI.Gen
